@@ -25,7 +25,11 @@ def transport_scripts(tier):
              lambda s: [f"T {s}", f"C {s} use-db t tok", f"C {s} watch $connections"],
              lambda s: [f"T {s}", f"C {s} use-db t tok", f"C {s} use-db u tok2"],
              lambda s: [f"T {s}", f"C {s} use-db t bad", f"C {s} get a"],
-             lambda s: [f"T {s}", f"C {s} use-db t tok", f"C {s} use-db t tok", f"C {s} set a 2"]]
+             lambda s: [f"T {s}", f"C {s} use-db t tok", f"C {s} use-db t tok", f"C {s} set a 2"],
+             # the same over a WEBSOCKET (one message = several requests split at `;`)
+             lambda s: [f"W {s}", f"C {s} use-db t tok;get a"],
+             lambda s: [f"W {s}", f"C {s} use-db t u upw;watch $connections", f"C {s} set-safe a 0 stale;get a"],
+             lambda s: [f"W {s}", f"C {s} use-db t bad;use-db t tok;use-db u tok2;"]]
     S = []
     for i, ka in enumerate(kinds):
         for j, kb in enumerate(kinds):
